@@ -180,7 +180,26 @@ func unfoldUSelf(to *USelf) (interface{}, func(*USelf, interface{}) error) {
 	}
 }
 
-var userUnfolders = gotype.Unfolders(unfoldUStr, unfoldUI64, unfoldUPt, unfoldUObj, unfoldUProc, unfoldUSelf, unfoldUKeys)
+// UNest: a processing unfolder whose cell holds values of the type AGAIN (the unfolding of a value starts while
+// an enclosing value of the same type is still open)
+type UNest struct {
+	N    int64
+	Kids []UNest
+}
+type nestCell struct {
+	N    int64   `struct:"n"`
+	Kids []UNest `struct:"kids"`
+}
+
+func unfoldUNest(to *UNest) (interface{}, func(*UNest, interface{}) error) {
+	return &nestCell{}, func(to *UNest, c interface{}) error {
+		x := c.(*nestCell)
+		to.N, to.Kids = x.N, x.Kids
+		return nil
+	}
+}
+
+var userUnfolders = gotype.Unfolders(unfoldUStr, unfoldUI64, unfoldUPt, unfoldUObj, unfoldUProc, unfoldUSelf, unfoldUKeys, unfoldUNest)
 
 // Options are values: using the shared option values of the harness together with OTHER options in one call must
 // not change what the shared values mean afterwards.  Done once per process, before any case runs: an iterator and an
@@ -221,6 +240,7 @@ func init() {
 		"UExp":  {reflect.TypeOf(UExp{}), TD{K: "struct", F: []FD{{Name: "X", T: i64}, {Name: "Y", T: i64}}}},
 		"USelf": {reflect.TypeOf(USelf{}), TD{K: "struct", F: []FD{{Name: "N", T: i64}}}},
 		"UKeys": {reflect.TypeOf(UKeys{}), TD{K: "struct", F: []FD{{Name: "Keys", T: TD{K: "slice", E: []TD{{K: "string"}}}}}}},
+		"UNest": {reflect.TypeOf(UNest{}), TD{K: "struct", F: []FD{{Name: "N", T: i64}, {Name: "Kids", T: TD{K: "slice", E: []TD{{K: "named", ID: "UNest"}}}}}}},
 	} {
 		namedTypes[id] = x.t
 		namedUnder[id] = x.u
